@@ -322,7 +322,7 @@ pub assume_specification [<{q} as PartialEq>::eq] (a: &{q}, b: &{q}) -> (r: bool
     # ---------- functions ----------
     def fn(self, path, impl, fn, requires=(), ensures=(), loops=None, ghost=(), subst=(), trait=None,
            erase_async=False, mut_self=False, ret_name='r', decreases=None, keep_macros=(), external_body=False,
-           let_chains=True, fmt=True, hash_loops=(), vis='pub', recommends=(), trait_full=None, keep_arms=None, as_inherent=False, copied_loops=()):
+           let_chains=True, fmt=True, hash_loops=(), vis='pub', recommends=(), trait_full=None, keep_arms=None, as_inherent=False, copied_loops=(), eta=()):
         """Extract one fn verbatim and splice its contract.  Returns a list of Seg (to be put in an impl block).
         requires/ensures: list of (name, text).  loops: {ordinal: dict(invariant=[(name,text)], decreases=text, iter='vx_it')}
         ghost: list of (anchor, text) with anchor in ('body_start',), ('body_end',), ('loop_start',k), ('loop_end',k),
@@ -542,6 +542,15 @@ pub assume_specification [<{q} as PartialEq>::eq] (a: &{q}, b: &{q}) -> (r: bool
             def inside(x):
                 return any(ds[0] <= x[0] and x[1] <= ds[1] and (x[0], x[1]) != ds for ds in dropped_arm_spans)
             edits = [x for x in edits if not inside(x)]
+        # R13: constructor used as a function value -> eta-expanded closure (every occurrence)
+        if eta:
+            whole0 = src[a:b].decode()
+            for ctor in eta:
+                for m13 in re.finditer(r'\b(map_err|map|and_then|ok_or_else)\(\s*' + re.escape(ctor) + r'\s*\)', whole0):
+                    s13 = len(whole0[:m13.start()].encode()) + a
+                    e13 = len(whole0[:m13.end()].encode()) + a
+                    edits.append((s13, e13, [Seg(f'{m13.group(1)}(|vx_e| {ctor}(vx_e))')]))
+                    self._rw('R13')
         # literal substitutions (tagged rewrites)
         body_off = a
         whole = src[a:b].decode()
